@@ -263,6 +263,29 @@ static std::string state(int i) {
     std::ostringstream o;
     o << "valid=" << (u.is_valid() ? 1 : 0);
     if (!u.is_valid()) {
+        // An object that is empty or whose last parse failed: every const member must still be
+        // callable (C04: no stray exception / pointer UB from any entry point; C05: inert).  The model
+        // prints only "valid=0"; anything appended here is a disagreement.
+        try {
+            std::size_t n = 0;
+            n += u.href().length(); n += u.origin().length(); n += u.protocol().length(); n += u.username().length();
+            n += u.password().length(); n += u.host().length(); n += u.hostname().length(); n += u.port().length();
+            n += u.pathname().length(); n += u.search().length(); n += u.hash().length(); n += u.path().length();
+            n += u.serialize(true).length(); n += u.serialize(false).length();
+            n += static_cast<std::size_t>(u.port_int() + 2); n += static_cast<std::size_t>(u.real_port_int() + 2);
+            n += u.has_credentials() ? 1 : 0; n += u.has_opaque_path() ? 1 : 0; n += u.empty() ? 1 : 0;
+            n += static_cast<std::size_t>(u.host_type()); n += u.is_special_scheme() ? 1 : 0;
+            for (int t = 0; t < upa::url::PART_COUNT; ++t) {
+                const auto pt = static_cast<upa::url::PartType>(t);
+                if (t != upa::url::SCHEME_SEP && t != upa::url::HOST_START && t != upa::url::PATH_PREFIX) n += u.get_part_view(pt).length();
+                n += u.is_null(pt) ? 1 : 0;
+            }
+            n += std::hash<upa::url>{}(u) & 1;
+            if (n == static_cast<std::size_t>(-1)) o << " ";   // keep the calls alive
+        }
+        catch (const upa::url_error&) { o << " getters=EXC url_error"; }
+        catch (const std::length_error& e) { o << " getters=EXC length_error:" << e.what(); }
+        catch (const std::exception& e) { o << " getters=EXC other:" << e.what(); }
         return o.str();
     }
     o << " " << obs(u) << " inv=" << check_inv(u);
